@@ -311,7 +311,9 @@ func (sx *SPDX) ProcessInternalApkSBOM(opts *options.Options, doc *Document, p *
 		// Search for a package in the new SBOM describing the same thing
 		for _, pkg := range doc.Packages {
 			// TODO: Think if we need to match version too
-			if pkg.Name == p.Name {
+			// Skip the imported element itself: replacing it by itself
+			// would delete it and leave every reference to it dangling.
+			if pkg.Name == p.Name && pkg.ID != id {
 				replacePackage(doc, pkg.ID, id)
 				break
 			}
